@@ -6626,6 +6626,8 @@ tsk_tree_clear(tsk_tree_t *self)
     self->interval.right = 0;
     self->num_edges = 0;
     self->index = -1;
+    self->sites = NULL;
+    self->sites_length = 0;
     tsk_tree_position_set_null(&self->tree_pos);
     /* TODO we should profile this method to see if just doing a single loop over
      * the nodes would be more efficient than multiple memsets.
